@@ -186,6 +186,13 @@ def array_sources(ctx, f, an, v):
             if buf is not None and f.locals[buf]["ty"].get("k") == "array":
                 fills, others = shapes.array_fills(an, buf)
                 out.extend(fl["src"] for fl in fills)
+    # an array that reaches the conversion through an Option/Result payload (built by a spliced-in helper): the origin
+    # tree names the local that was filled in place
+    if not out:
+        for c in v.walk():
+            if c.k == "mutated" and isinstance(c.a[1], int) and c.a[1] < len(f.locals) and f.locals[c.a[1]]["ty"].get("k") == "array":
+                fills, others = shapes.array_fills(an, c.a[1])
+                out.extend(fl["src"] for fl in fills)
     return out
 
 
